@@ -57,6 +57,17 @@ def judge_unit_registered(o, cls_tid="T1", symbol_tag="symbol", want_def_mag=Non
     term = [w for w in persistent_writes(st) if w[0] == "mapcall" and w[1] == "_TERM_UNIT_MAP"]
     if len(sym) != 1 or sym[0][3] is not u:
         return ("unit not stored exactly once in the symbol directory", repr(sym))
+    # insert-if-absent: on this path the same key was looked up in the *symbol directory* and found absent
+    probed = False
+    for e in st.effects:
+        if e[0] == "mapread" and isinstance(e[1], GlobalMapV) and e[1].name == sym[0][1] and e[2] is sym[0][2]:
+            probed = True
+        if e[0] == "contains" and isinstance(e[1], GlobalMapV) and e[1].name == sym[0][1] and e[2] is sym[0][2] \
+                and e[3] is False:
+            probed = True
+    if not probed:
+        return ("symbol stored in the global directory without checking that it is free there",
+                "no failed lookup / negative membership test of this key in the symbol directory on this path")
     if len(per) != 1 or per[0][3] is not u or per[0][1] != f"_unit_map({st.tfind(cls_tid)})":
         return ("unit not stored in the map of exactly its own type", repr(per))
     if sym[0][2] is not per[0][2]:
@@ -257,6 +268,10 @@ def run(prog, tier) -> Result:
               else ("own type rejected", o.brief()))
     run_entry(prog, res, "R15.4", "Quantity.__new__", "unit of another type", f_body("other"),
               lambda o: expect_raise(o, ["QuantityError"]))
+
+    # string factory: an amount-and-symbol string yields an instance of the symbol's unit's type
+    from .c18 import string_cases
+    string_cases(prog, CaseRunner(prog, res, max_depth=12), rule="R15.4")
 
     # ---- R15.7 / class creation coherence
     def cls_body(derived, ref):
